@@ -111,6 +111,19 @@ CLAIMED.update({
     },
 })
 
+CLAIMED.update({
+    "C15": {
+        "technique": "static analysis: exhaustive path enumeration over MIR with symbolic guards/places; lock-order graph, pending-needs-waker-under-guard, taken-wakers-woken, sender-count pairing",
+        "level": ("Static, all paths of every function in distributor_channels.rs (helpers inlined one level, loops unrolled twice): the "
+                  "only guard nesting is Channel.state -> Gate.send_wakers; every Pending of SendFuture/RecvFuture::poll pushed a clone of "
+                  "cx.waker() into a list reached through a guard that is still live; every waker list taken out of shared state is "
+                  "iterated and each element woken; pushing into an empty queue takes the receiver wakers; receiver drop wakes the "
+                  "channel's senders; n_senders is incremented by Clone and decremented by Drop exactly once, recv_wakers closes only "
+                  "after the decrement, and n_senders / empty_channels have no other writers. These are necessary conditions for "
+                  "no-deadlock / no-lost-wake-up under every schedule; value order and exactly-once delivery are not decided."),
+    },
+})
+
 NA = {
     'C01': 'whole-pipeline value semantics over all queries x all table contents: functional verification, no clause visible in code shape beyond C03/C05/C47',
     'C08': 'ordering/permutation of runtime values (loser tree, cursors, heaps are value algorithms); no structural clause',
